@@ -677,6 +677,8 @@ def regions_for(body: Body):
         r += ["near_edge", "near_corner", "edge_extension"]
     if isinstance(body, CylSeg):
         r += ["near_edge", "near_axis", "rim_radius", "base_plane", "mantle_ext"]
+        if body.r1 > 0:
+            r += ["bore"]  # the hole of a ring / ring sector: r < r1 between the base planes (outside the body)
         if not body.full:
             r += ["near_corner", "edge_extension", "segment_plane"]
     if isinstance(body, CircleBody):
@@ -698,6 +700,12 @@ def observer_in_region(body: Body, region: str, u, clear=1e-3):
         S, n, _ = body.surface_point(u)
         d = L * logu(u[3], np.log10(clear), -1.0)
         p = S + n * d if region == "near_out" else S - n * d
+    elif region == "bore":
+        if isinstance(body, CylSeg) and body.r1 > 0:
+            r = body.r1 * np.sqrt(u[1]) * (1 - 2 * clear) - clear * L
+            if r > 0:
+                ph = TWO_PI * u[2] - np.pi
+                p = np.array([r * np.cos(ph), r * np.sin(ph), (u[3] - 0.5) * body.h * 0.98])
     elif region == "inside":
         if isinstance(body, CylSeg):
             r = np.sqrt(body.r1**2 + u[1] * (body.r2**2 - body.r1**2))
